@@ -735,6 +735,8 @@ class FakeConnection(object):
             k = n
         elif self.chunk_mode == 'one':
             k = 1
+        elif self.chunk_mode == 'large':
+            k = self.rng.choice((1000, 4096, 65536, n))
         else:
             k = self.rng.choice((1, 2, 3, 7, 8, 9, 64, n, n))
         k = max(1, min(k, n, left))
